@@ -366,6 +366,31 @@ fn sections(p: &Params) -> Program {
                 drop(h);
             }),
         ],
+        // 9. a long critical section that itself defers more than 128 functions (every 64th
+        //    deferral tries to advance the epoch from inside the section)
+        8 => vec![
+            ebody(&ew, move |c, ew| {
+                let h = take(0)(ew);
+                let g = c.pin(&h);
+                c.mark();
+                for _ in 0..130 {
+                    let id = mon().closure_deferred(c.t);
+                    unsafe { cv::ebr::defer(&g.g, move || ran(id)) };
+                }
+                c.mark();
+                c.unpin(g);
+                drop(h);
+            }),
+            ebody(&ew, move |c, ew| {
+                let h = take(1)(ew);
+                let g = c.pin(&h);
+                c.defer(&g);
+                c.flush(&g);
+                c.unpin(g);
+                drop(h);
+            }),
+            advancer(2, 2),
+        ],
         // 8. the handle is dropped while a guard is alive: unregistration happens at unpin
         _ => vec![
             ebody(&ew, move |c, ew| {
@@ -484,48 +509,74 @@ struct Pay<A: Copy, const N: usize> {
 }
 
 fn pattern(id: usize, i: usize) -> u8 {
+    if i == 0 {
+        return id as u8;
+    }
     (id.wrapping_mul(31).wrapping_add(i.wrapping_mul(7)) & 0xff) as u8 ^ 0x5a
 }
 
-fn defer_pay<A: Copy + Send + 'static, const N: usize>(g: &Guard, id: usize) {
+/// The closure captures nothing but the payload (so that its size is exactly the payload's:
+/// sizes that are not a multiple of the word size matter). The first byte carries the index of
+/// the function within its case; a zero-sized payload cannot carry one and is counted in order.
+static PAYLOAD_BASE: std::sync::atomic::AtomicUsize = std::sync::atomic::AtomicUsize::new(0);
+
+fn defer_pay<A: Copy + Send + 'static, const N: usize>(g: &Guard, base: usize, k: usize) {
+    // the closure must capture nothing but `p`: the base index travels through a static
+    PAYLOAD_BASE.store(base, std::sync::atomic::Ordering::Relaxed);
     let mut p = Pay::<A, N> { a: [], b: [0; N] };
     for i in 0..N {
-        p.b[i] = pattern(id, i);
+        p.b[i] = pattern(k, i);
     }
     unsafe {
         cv::ebr::defer(g, move || {
+            let p = std::hint::black_box(p);
+            let base = PAYLOAD_BASE.load(std::sync::atomic::Ordering::Relaxed);
             let addr = &p as *const Pay<A, N> as usize;
             let mut ok = addr % std::mem::align_of::<Pay<A, N>>() == 0;
-            for i in 0..N {
-                ok &= std::hint::black_box(&p).b[i] == pattern(id, i);
+            let k = if N > 0 { p.b[0] as usize } else { usize::MAX };
+            for i in 1..N {
+                ok &= p.b[i] == pattern(k, i);
             }
-            if !ok {
-                if let Some(m) = try_mon() {
-                    m.violate("C15", "payload-corrupted", format!("captured data of deferred function {} arrived damaged or misaligned (size {}, align {})", id, std::mem::size_of::<Pay<A, N>>(), std::mem::align_of::<Pay<A, N>>()));
-                }
+            let Some(m) = try_mon() else { return };
+            let id = if N > 0 {
+                base + k
+            } else {
+                // next function of this case that has not run yet
+                (base..m.ebr.deferred.len()).find(|&i| m.ebr.deferred[i].runs == 0).unwrap_or(base)
+            };
+            if !ok || id >= m.ebr.deferred.len() {
+                m.violate(
+                    "C15",
+                    "payload-corrupted",
+                    format!(
+                        "captured data of a deferred function arrived damaged or misaligned (closure size {}, align {}): {:?}",
+                        std::mem::size_of::<Pay<A, N>>(),
+                        std::mem::align_of::<Pay<A, N>>(),
+                        &p.b[..N.min(40)]
+                    ),
+                );
+                return;
             }
             ran(id);
         })
     };
 }
 
-pub const PAY_SIZES: [usize; 10] = [0, 1, 8, 16, 23, 24, 25, 32, 64, 256];
+pub const PAY_SIZES: [usize; 45] = [
+    0, 1, 2, 3, 4, 5, 6, 7, 8, 9, 10, 11, 12, 13, 14, 15, 16, 17, 18, 19, 20, 21, 22, 23, 24, 25, 26,
+    27, 28, 29, 30, 31, 32, 33, 34, 35, 36, 40, 47, 48, 49, 64, 65, 128, 256,
+];
 pub const PAY_ALIGNS: [usize; 7] = [1, 2, 4, 8, 16, 32, 64];
 
-fn defer_payload(g: &Guard, id: usize, size_i: usize, align_i: usize) {
+fn defer_payload(g: &Guard, base: usize, k: usize, size_i: usize, align_i: usize) {
     macro_rules! by_size {
         ($a:ty) => {
-            match size_i {
-                0 => defer_pay::<$a, 0>(g, id),
-                1 => defer_pay::<$a, 1>(g, id),
-                2 => defer_pay::<$a, 8>(g, id),
-                3 => defer_pay::<$a, 16>(g, id),
-                4 => defer_pay::<$a, 23>(g, id),
-                5 => defer_pay::<$a, 24>(g, id),
-                6 => defer_pay::<$a, 25>(g, id),
-                7 => defer_pay::<$a, 32>(g, id),
-                8 => defer_pay::<$a, 64>(g, id),
-                _ => defer_pay::<$a, 256>(g, id),
+            by_size!(@ $a; 0 1 2 3 4 5 6 7 8 9 10 11 12 13 14 15 16 17 18 19 20 21 22 23 24 25 26 27 28 29 30 31 32 33 34 35 36 40 47 48 49 64 65 128 256)
+        };
+        (@ $a:ty; $($n:literal)*) => {
+            match PAY_SIZES[size_i] {
+                $($n => defer_pay::<$a, $n>(g, base, k),)*
+                _ => unreachable!(),
             }
         };
     }
@@ -540,9 +591,7 @@ fn defer_payload(g: &Guard, id: usize, size_i: usize, align_i: usize) {
     }
 }
 
-/// (capacity 1 is not a configuration the library can have and makes a single collection
-/// endless: every pop retires a queue node, which overflows a one-entry bag into the queue again)
-pub const PAY_CAPS: [usize; 4] = [2, 3, 4, 64];
+pub const PAY_CAPS: [usize; 3] = [2, 3, 64];
 
 pub fn payload_cases() -> i64 {
     (PAY_SIZES.len() * PAY_ALIGNS.len() * PAY_CAPS.len() * 7 * 4) as i64
@@ -555,8 +604,8 @@ fn payload(p: &Params) -> Program {
     k /= 4;
     let fill_i = k % 7;
     k /= 7;
-    let cap = PAY_CAPS[k % 4];
-    k /= 4;
+    let cap = PAY_CAPS[k % PAY_CAPS.len()];
+    k /= PAY_CAPS.len();
     let align_i = k % PAY_ALIGNS.len();
     k /= PAY_ALIGNS.len();
     let size_i = k % PAY_SIZES.len();
@@ -569,9 +618,10 @@ fn payload(p: &Params) -> Program {
             ew.attach(e0);
             let mut h = Some(ew.collector.register());
             let mut g = Some(c.pin(h.as_ref().unwrap()));
-            for _ in 0..fill {
-                let id = mon().closure_deferred(c.t);
-                defer_payload(&g.as_ref().unwrap().g, id, size_i, align_i);
+            let base = mon().ebr.deferred.len();
+            for k in 0..fill {
+                mon().closure_deferred(c.t);
+                defer_payload(&g.as_ref().unwrap().g, base, k, size_i, align_i);
             }
             match mode {
                 0 => {
